@@ -46,10 +46,12 @@ func genLitK(t *rapid.T, rsize int, maxKind int) string {
 		v = 100
 	}
 	kind := rapid.IntRange(0, maxKind).Draw(t, "litk")
-	if rapid.IntRange(0, 15).Draw(t, "litboundary") == 0 && rsize >= 2 && rsize <= 64 {
-		// the largest values of the register size, written as plain decimals or hex
+	if rapid.IntRange(0, 9).Draw(t, "litboundary") == 0 && rsize >= 2 && rsize <= 64 {
+		// the largest values of the register size, written as plain decimals or hex; and the edges of the
+		// 64-bit parsers whatever the register size (a value that does not fit must be refused the same way
+		// every time)
 		top := ^uint64(0) >> uint(64-rsize)
-		b := []uint64{top, top >> 1, (top >> 1) + 1}[rapid.IntRange(0, 2).Draw(t, "litb")]
+		b := []uint64{top, top >> 1, (top >> 1) + 1, 1 << 63, ^uint64(0)}[rapid.IntRange(0, 4).Draw(t, "litb")]
 		if rapid.Bool().Draw(t, "litbhex") {
 			return fmt.Sprintf("0x%x", b)
 		}
